@@ -126,3 +126,52 @@ From CDD Require Import SourceConstants.
 Theorem C01_rest_tokens_are_the_sources :
   arg_tokens = src_rest_arg_tokens /\ return_tokens = src_rest_return_tokens /\ all_tokens = src_rest_tokens.
 Proof. repeat split; vm_compute; reflexivity. Qed.
+
+(* ---- defaults carried in the prose: what the emitter announces, the parser's extract_default finds again ---------------------
+   Model/ExtractDefault.v transcribes cdd/shared/defaults_utils.py:extract_default at text level (location_within with the
+   case-folding comparator over DEFAULTS_TO_VARIANTS, plain and parenthesised; the character loop that delimits the default; the
+   slicing that removes the announcer); Model/DefaultDoc.v:set_default_doc is the emitter's side.  [has_kw x = false] says that x
+   does not contain the word "default" in any capitalisation. *)
+From CDD Require ExtractDefault ExtractDefaultProofs DefaultDoc.
+
+(* a description that never says "default" is returned unchanged and no default is invented -- for EVERY such text *)
+Theorem C01_no_announcer_no_default : forall (line : str) (emit_default_doc : bool),
+  ExtractDefaultProofs.has_kw line = false ->
+  ExtractDefault.extract_default_text line emit_default_doc = (line, None).
+Proof. exact ExtractDefaultProofs.no_default_identity. Qed.
+Print Assumptions C01_no_announcer_no_default.
+
+(* for EVERY description d and default text t that do not contain the word "default", t being a text the character loop keeps
+   whole (no sentence-ending "."): the line the emitter writes, "<d>[.] Defaults to <t>", is read back as exactly t (code quotes
+   and blanks around it removed), and the description comes back as d plus the full stop the emitter added -- nothing of d is cut
+   off, nothing of t leaks into it, whatever characters (any script, any case-folding behaviour) d contains *)
+Theorem C01_default_text_roundtrip : forall (strip : str -> str) (d t : str),
+  ExtractDefaultProofs.has_kw d = false -> ExtractDefaultProofs.has_kw t = false -> ExtractDefault.scan_default t false = t ->
+  ExtractDefault.extract_default_text (DefaultDoc.set_default_doc strip d (Some t) true) false
+    = (ExtractDefaultProofs.dotted d, Some (ExtractDefaultProofs.strip3 t))
+  /\ ExtractDefault.extract_default_text (DefaultDoc.set_default_doc strip d (Some t) true) true
+    = (DefaultDoc.set_default_doc strip d (Some t) true, Some (ExtractDefaultProofs.strip3 t)).
+Proof. exact ExtractDefaultProofs.default_text_roundtrip. Qed.
+Print Assumptions C01_default_text_roundtrip.
+
+(* a sufficient syntactic condition for the hypothesis on t *)
+Theorem C01_text_without_full_stop_is_kept : forall (t : str),
+  forallb (fun c => negb (N.eqb c ExtractDefault.DOT)) t = true -> forall b, ExtractDefault.scan_default t b = t.
+Proof. exact ExtractDefaultProofs.scan_no_dot. Qed.
+
+(* the hypotheses are met by non-trivial inputs, and what the model returns on them: a negative number after a description with
+   a character whose case-folding is longer than itself; a code-quoted expression with ".join" after a closed bracket group *)
+Example C01_default_text_examples :
+  let run d t := ExtractDefault.extract_default_text (DefaultDoc.set_default_doc (fun x => x) (s2l d) (Some (s2l t)) true) false in
+  ExtractDefaultProofs.has_kw (s2l "Größe des Puffers"%string) = false
+  /\ ExtractDefault.scan_default (s2l "12.5"%string) false = s2l "12.5"%string
+  /\ run "the size"%string "-16"%string = (s2l "the size."%string, Some (s2l "-16"%string))
+  /\ run "the ratio,"%string "12.5"%string = (s2l "the ratio,"%string, Some (s2l "12.5"%string))
+  /\ run "the separator"%string "```(""-"" * 3).join(""ab"")```"%string = (s2l "the separator."%string, Some (s2l "(""-"" * 3).join(""ab"")"%string))
+  (* outside the hypothesis: a default with a sentence-ending "."%string is cut there, and the rest lands in the description *)
+  /\ run "the host"%string "a.b"%string = (s2l "the host.b"%string, Some (s2l "a"%string)).
+Proof. vm_compute. repeat split; reflexivity. Qed.
+
+(* the announcers the model searches for are the ones of the source (regenerated on every run) *)
+Theorem C01_announcers_are_the_sources : ExtractDefault.VARIANTS = src_defaults_to_variants.
+Proof. vm_compute. reflexivity. Qed.
